@@ -29,14 +29,8 @@ fn c10_writer_shape() {
     let mins: i32 = kani::any();
     kani::assume(mins > -1440 && mins < 1440);
     let off = FixedOffset::east_opt(mins * 60).unwrap();
-    // build the value from its WALL CLOCK reading (the property is stated on the wall clock)
-    let dt = match off.from_local_datetime(&d.and_time(t)) {
-        chrono::offset::LocalResult::Single(x) => x,
-        _ => return,
-    };
-    let items = [Item::Fixed(Fixed::RFC3339)];
-    let mut buf = Buf::<36>::new();
-    assert!(dt.format_with_items(items.iter()).write_to(&mut buf).is_ok() && !buf.overflow);
+    // the writer is handed the WALL CLOCK reading and the offset (the property is stated on the wall clock)
+    let buf: Buf<36> = render_wall(d, t, off, &[Item::Fixed(Fixed::RFC3339)]);
     let b = &buf.b;
     // date and time skeleton
     assert!(dig(b[0]) && dig(b[1]) && dig(b[2]) && dig(b[3]) && b[4] == b'-' && dig(b[5]) && dig(b[6]) && b[7] == b'-' && dig(b[8]) && dig(b[9]));
@@ -72,13 +66,9 @@ fn c10_writer_shape() {
     kani::cover!(mins == 0);
 }
 
-#[cfg(kani)]
-fn render(dt: &chrono::DateTime<FixedOffset>) -> Buf<36> {
+fn render(d: NaiveDate, t: NaiveTime, off: FixedOffset) -> Buf<36> {
     use chrono::format::{Fixed, Item};
-    let items = [Item::Fixed(Fixed::RFC3339)];
-    let mut buf = Buf::<36>::new();
-    assert!(dt.format_with_items(items.iter()).write_to(&mut buf).is_ok() && !buf.overflow);
-    buf
+    render_wall(d, t, off, &[Item::Fixed(Fixed::RFC3339)])
 }
 
 // @ob tier=quick timeout=900 mem=14
@@ -92,8 +82,7 @@ fn c10_writer_date_part() {
     let d = any_date();
     let (y, m, dd) = (d.year(), d.month(), d.day());
     kani::assume(y >= 0 && y <= 9999 && valid_ymd(y, m, dd));
-    let dt = FixedOffset::east_opt(0).unwrap().from_utc_datetime(&d.and_hms_opt(12, 34, 56).unwrap());
-    let buf = render(&dt);
+    let buf = render(d, NaiveTime::from_hms_opt(12, 34, 56).unwrap(), FixedOffset::east_opt(0).unwrap());
     let b = &buf.b;
     assert!(dig(b[0]) && dig(b[1]) && dig(b[2]) && dig(b[3]) && b[4] == b'-' && dig(b[5]) && dig(b[6]) && b[7] == b'-' && dig(b[8]) && dig(b[9]));
     assert!(two(b, 0) * 100 + two(b, 2) == y as u32 && two(b, 5) == m && two(b, 8) == dd);
@@ -116,12 +105,7 @@ fn c10_writer_time_part() {
     let mins: i32 = kani::any();
     kani::assume(mins > -1440 && mins < 1440);
     let off = FixedOffset::east_opt(mins * 60).unwrap();
-    let local = NaiveDate::from_ymd_opt(2001, 7, 8).unwrap().and_time(t);
-    let dt = match off.from_local_datetime(&local) {
-        chrono::offset::LocalResult::Single(x) => x,
-        _ => return,
-    };
-    let buf = render(&dt);
+    let buf = render(NaiveDate::from_ymd_opt(2001, 7, 8).unwrap(), t, off);
     let b = &buf.b;
     assert!(b[0] == b'2' && b[3] == b'1' && b[5] == b'0' && b[6] == b'7' && b[8] == b'0' && b[9] == b'8' && b[10] == b'T');
     assert!(dig(b[11]) && dig(b[12]) && b[13] == b':' && dig(b[14]) && dig(b[15]) && b[16] == b':' && dig(b[17]) && dig(b[18]));
